@@ -265,6 +265,14 @@ def coerce(v, sort):
         return V(v.t, sort.inner)
     if isinstance(v.s, RefS) and isinstance(sort, RefS):
         return V(v.t, sort)        # subclass / superclass reference
+    if isinstance(sort, UnionS) and v.s in sort.alts:
+        return union_inject(sort, v)
+    if isinstance(v.s, SeqS) and isinstance(sort, SeqS) and isinstance(sort.elem, UnionS) and v.s.elem in sort.elem.alts:
+        n = z3.simplify(seq_len(v.t))
+        if z3.is_int_value(n) and n.as_long() <= 8:       # a list display: inject element-wise
+            return seq_lit(sort, [union_inject(sort.elem, V(z3.simplify(seq_get(v.t, i)), v.s.elem)) for i in range(n.as_long())])
+    if isinstance(v.s, UnionS) and sort in v.s.alts:
+        return V(union_get(v.t, v.s, sort), sort)      # projection: the caller has established (or requires) the alternative
     if isinstance(v.s, SeqS) and isinstance(sort, SeqS) and v.s.elem == NONE:
         return V(seq_empty(sort).t, sort) if False else v
     raise TypeError("cannot use a %r where a %r is expected" % (v.s, sort))
